@@ -768,3 +768,99 @@ func getterField(g *ssa.Function) string {
 	getterCache[g] = res
 	return res
 }
+
+// parseUintOrigin follows v (through conversions and through package helpers
+// that return it on their success paths) back to a strconv.ParseUint call.
+// It returns the ParseUint call, the chain of (helper call, result index) it
+// went through, and the value the parsed string is in the ORIGINAL frame.
+type originStep struct {
+	call *ssa.Call
+	idx  int
+}
+
+func parseUintOrigin(v ssa.Value, depth int) (pu *ssa.Call, steps []originStep, ok bool) {
+	v = stripConv(v)
+	if d := singleDef(v); d != nil {
+		v = stripConv(d)
+	}
+	ex, isEx := v.(*ssa.Extract)
+	if !isEx {
+		return nil, nil, false
+	}
+	call, isCall := ex.Tuple.(*ssa.Call)
+	if !isCall {
+		return nil, nil, false
+	}
+	g := staticCallee(&call.Call)
+	if g == nil {
+		return nil, nil, false
+	}
+	if qualFuncName(g) == "strconv.ParseUint" && ex.Index == 0 {
+		return call, nil, true
+	}
+	if !inSmtp(g) || depth > 2 || g.Blocks == nil {
+		return nil, nil, false
+	}
+	// every success return (nil error result, if the last result is an error) must derive from ParseUint
+	res := g.Signature.Results()
+	errIdx := -1
+	if res.Len() > 0 && types.Identical(res.At(res.Len()-1).Type(), types.Universe.Lookup("error").Type()) {
+		errIdx = res.Len() - 1
+	}
+	var inner *ssa.Call
+	var innerSteps []originStep
+	n := 0
+	good := true
+	// a helper that passes the error through (`return int64(v), err`) has no return with a constant nil error:
+	// then every return counts
+	hasNilRet := false
+	allInstrs(g, func(in ssa.Instruction) {
+		if r, isR := in.(*ssa.Return); isR && in.Block() != g.Recover && errIdx >= 0 && isNilConst(returnedValues(r)[errIdx]) {
+			hasNilRet = true
+		}
+	})
+	allInstrs(g, func(in ssa.Instruction) {
+		r, isR := in.(*ssa.Return)
+		if !isR || in.Block() == g.Recover {
+			return
+		}
+		vals := returnedValues(r)
+		if errIdx >= 0 && hasNilRet && !isNilConst(vals[errIdx]) {
+			return // failure return
+		}
+		n++
+		c2, st, ok := parseUintOrigin(vals[ex.Index], depth+1)
+		if !ok {
+			good = false
+			return
+		}
+		inner, innerSteps = c2, st
+	})
+	if !good || n == 0 || inner == nil {
+		return nil, nil, false
+	}
+	return inner, append([]originStep{{call, ex.Index}}, innerSteps...), true
+}
+
+// argInCallerFrame: describes value v of helper frames in terms of the
+// outermost caller by substituting parameters with call arguments along steps.
+func argInCallerFrame(v ssa.Value, steps []originStep) string {
+	for i := len(steps) - 1; i >= 0; i-- {
+		p, ok := stripConv(v).(*ssa.Parameter)
+		if !ok {
+			return describe(v) + " (inside helper)"
+		}
+		g := staticCallee(&steps[i].call.Call)
+		idx := -1
+		for k, q := range g.Params {
+			if q == p {
+				idx = k
+			}
+		}
+		if idx < 0 || idx >= len(steps[i].call.Call.Args) {
+			return "?"
+		}
+		v = steps[i].call.Call.Args[idx]
+	}
+	return describe(v)
+}
